@@ -192,7 +192,10 @@ class VEx:
                 elif e[0] == "idx":
                     out.append(("idx", e[1]))
                 elif e[0] == "cidx":
-                    out.append("[%d]" % e[1])
+                    out.append("[%d]" % e[1] if not e[2] else "[-%d]" % e[1])
+                elif e[0] == "sub":
+                    # Subslice{from, to, from_end}: s[from .. len - to] (from_end) / s[from .. to]
+                    out.append(("sub", e[1], e[2], bool(e[3])))
                 else:
                     out.append("?")
         return tuple(out)
@@ -461,7 +464,7 @@ class Prover:
 
     # ---- linearisation
     def lin(self, e):
-        e = strip_ref(e) if e[0] == "ref" and False else e
+        e = unq(e)
         k = e[0]
         if k == "const" and isinstance(e[1], int):
             return Lin(e[1])
@@ -503,6 +506,34 @@ class Prover:
                         return bl.add(self.lin(rng[2][0]), -1)
                     if rng[1].endswith("Range::Range"):
                         return self.lin(rng[2][1]).add(self.lin(rng[2][0]), -1)
+            # s.get(range) payload has the length of the range
+            if x[0] == "proj" and x[1][0] == "call" and x[1][1].endswith("<impl [T]>::get") and tuple(x[2]) == ("@Some", "0") and \
+                    len(x[1][2]) == 2:
+                rng = strip_ref(x[1][2][1])
+                bl = self.lin(("call", LEN_CALLS[0], (x[1][2][0],), None, ()))
+                if rng[0] == "agg":
+                    if rng[1].endswith("RangeTo::RangeTo"):
+                        return self.lin(rng[2][0])
+                    if rng[1].endswith("RangeFrom::RangeFrom"):
+                        return bl.add(self.lin(rng[2][0]), -1)
+                    if rng[1].endswith("Range::Range"):
+                        return self.lin(rng[2][1]).add(self.lin(rng[2][0]), -1)
+            # slice patterns: `[a, b, rest @ ..]` binds rest = s[2..]  (Subslice projection)
+            if x[0] in ("path", "proj") and x[2] and isinstance(x[2][-1], tuple) and x[2][-1][0] == "sub":
+                _, frm, to, from_end = x[2][-1]
+                base = (x[0], x[1], tuple(x[2][:-1])) if len(x) == 3 else (x[0], x[1], tuple(x[2][:-1])) + tuple(x[3:])
+                bl = self.lin(("call", LEN_CALLS[0], (base,), None, ()))
+                if from_end:
+                    return bl.add(Lin(frm + to), -1)
+                return Lin(to - frm)
+            # split lemmas: s.split_first() = Some((&s[0], &s[1..])), s.split_first_chunk::<N>() = Some((&s[..N], &s[N..]))
+            sf = split_first_parts(x)
+            if sf is not None:
+                base, k, part = sf
+                if part == 1:
+                    return self.lin(("call", LEN_CALLS[0], (base,), None, ())).add(Lin(k), -1)
+                if part == 0 and k is not None:
+                    return Lin(k)
             # split lemma: s.split_at(m) = (s[..m], s[m..])
             if x[0] == "proj" and x[1][0] == "call" and x[1][1] in SPLIT_AT and len(x[1][2]) == 2 and x[2] in (("0",), ("1",)):
                 base, mid = x[1][2]
@@ -816,6 +847,24 @@ class Prover:
                     some = True
                 if some is not None:
                     out.extend(self.option_facts(strip_ref(cond[1]), some))
+            elif ty.startswith("core::ops::control_flow::ControlFlow<"):
+                # `opt.ok_or(e)?` / `opt?`: the Continue edge (0) means opt was Some
+                cont = None
+                if not is_else and vals == [0]:
+                    cont = True
+                elif not is_else and vals == [1]:
+                    cont = False
+                elif is_else and set(allvals) == {1}:
+                    cont = True
+                elif is_else and set(allvals) == {0}:
+                    cont = False
+                inner = strip_ref(cond[1])
+                if cont is not None and inner[0] == "call" and inner[1] == "core::ops::try_trait::Try::branch" and inner[2]:
+                    arg = strip_ref(inner[2][0])
+                    if arg[0] == "call" and arg[1] in ("core::option::Option::<T>::ok_or", "core::option::Option::<T>::ok_or_else") and arg[2]:
+                        out.extend(self.option_facts(strip_ref(arg[2][0]), cont))
+                    else:
+                        out.extend(self.option_facts(arg, cont))
             return out
         # equality switch on an integer: value known on the edge
         if not is_else and len(vals) == 1 and k not in ("discr",):
@@ -839,6 +888,14 @@ class Prover:
                     hi = self.lin(idx[2][1])
                     if some:
                         out.append(L.add(hi, -1))
+                elif idx[0] == "agg" and (idx[1].endswith("RangeTo::RangeTo") or idx[1].endswith("RangeFrom::RangeFrom")):
+                    bound = self.lin(idx[2][0])
+                    if some:                      # ..n / k..  is in range iff bound <= len
+                        out.append(L.add(bound, -1))
+                    else:
+                        out.append(bound.add(L, -1).add(Lin(1), -1))
+                elif idx[0] == "agg":
+                    pass
                 else:
                     I = self.lin(idx)
                     if some:                      # idx < len
@@ -903,6 +960,43 @@ class Prover:
         return self.prove_nonneg(g, bb)
 
 
+def unq(e, depth=0):
+    """Undo `?`: `(Try::branch(X)).@Continue.0...` is `X.@Ok.0...` for a Result X and `X.@Some.0...` for an
+    Option X, and `X.ok_or(e)` / `ok_or_else` has the same payload as X.  (Whether the unwrapping succeeds is a
+    matter of the path condition; the *value* is the same.)"""
+    if not isinstance(e, tuple) or not e or depth > 40:
+        return e
+    k = e[0]
+    if k == "proj":
+        base = unq(e[1], depth + 1)
+        flds = tuple(e[2])
+        b2 = strip_ref(base) if base[0] == "ref" else base
+        if b2[0] == "call" and b2[1] == "core::ops::try_trait::Try::branch" and b2[2] and flds[:2] == ("@Continue", "0"):
+            arg = b2[2][0]
+            a2 = strip_ref(arg) if arg[0] == "ref" else arg
+            ga = b2[4] if len(b2) > 4 else ()
+            ty0 = str(ga[0]) if ga else ""
+            variant = "@Some" if ty0.startswith("core::option::Option<") else "@Ok"
+            return unq(("proj", a2, (variant, "0") + flds[2:]), depth + 1)
+        if b2[0] == "call" and b2[1] in ("core::option::Option::<T>::ok_or", "core::option::Option::<T>::ok_or_else") and b2[2] and \
+                flds[:2] == ("@Ok", "0"):
+            return unq(("proj", b2[2][0], ("@Some", "0") + flds[2:]), depth + 1)
+        if b2[0] == "call" and b2[1] in ("core::result::Result::<T, E>::map_err",) and b2[2] and flds[:1] == ("@Ok",):
+            return unq(("proj", b2[2][0], flds), depth + 1)
+        return ("proj", base, flds) + tuple(e[3:])
+    if k == "ref":
+        return ("ref", unq(e[1], depth + 1)) + tuple(e[2:])
+    if k == "call":
+        return ("call", e[1], tuple(unq(a, depth + 1) for a in e[2])) + tuple(e[3:])
+    if k == "bin":
+        return ("bin", e[1], unq(e[2], depth + 1), unq(e[3], depth + 1)) + tuple(e[4:])
+    if k == "cast":
+        return ("cast", unq(e[1], depth + 1)) + tuple(e[2:])
+    if k == "agg":
+        return ("agg", e[1], tuple(unq(a, depth + 1) for a in e[2])) + tuple(e[3:])
+    return e
+
+
 def canon(e):
     """Hashable canonical form of an expression: drop block ids of calls (a call result is
     identified by its single-definition position anyway) but keep variable versions."""
@@ -934,6 +1028,33 @@ def range_bounds(pr, rng):
         return (pr.lin(rng[2][0]), pr.lin(rng[2][1]), "range")
     if n.endswith("RangeFull::RangeFull"):
         return (None, None, "full")
+    return None
+
+
+SPLIT_FIRST = ("core::slice::<impl [T]>::split_first",)
+SPLIT_FIRST_CHUNK = ("core::slice::<impl [T]>::split_first_chunk",)
+
+
+def split_first_parts(x):
+    """(base, k, part) if x is component `part` (0 | 1) of the Some payload of base.split_first() (k = 1) or
+    base.split_first_chunk::<K>() (k = K); None otherwise."""
+    if x[0] != "proj" or x[1][0] != "call" or len(x[2]) < 3:
+        return None
+    flds = tuple(x[2])
+    if flds[:2] != ("@Some", "0") or flds[2] not in ("0", "1") or len(flds) != 3:
+        return None
+    c = x[1]
+    if c[1] in SPLIT_FIRST:
+        return c[2][0], 1, int(flds[2])
+    if c[1] in SPLIT_FIRST_CHUNK:
+        ga = c[4] if len(c) > 4 else ()
+        k = None
+        for g in ga:
+            if str(g).isdigit():
+                k = int(g)
+        if k is None:
+            return None
+        return c[2][0], k, int(flds[2])
     return None
 
 
